@@ -107,6 +107,30 @@ pub fn conf_ds(ds: &MDs) -> bool {
     })
 }
 
+/// canonical data sets (mirrors Json.canon_dset): the round trip must return exactly the same data set
+fn canon_prim(vr: VR, p: &MPrim) -> bool {
+    let text_ok = |s: &String| !s.ends_with(' ') && !s.ends_with('\0') && !s.contains('\\');
+    match p {
+        MPrim::Empty => vr != VR::SQ,
+        MPrim::Strs(l) if is_str_vr(vr) => !l.is_empty() && l.iter().all(text_ok),
+        MPrim::Strs(l) if vr == VR::PN => !l.is_empty() && l.iter().all(|s| text_ok(s) && !s.ends_with('=')),
+        MPrim::Strs(l) if vr == VR::DS || vr == VR::IS => !l.is_empty(),
+        MPrim::Tags(l) if vr == VR::AT => !l.is_empty(),
+        MPrim::Int(IK::U8, l) if is_bin_vr(vr) => !l.is_empty(),
+        MPrim::Int(k, l) => !l.is_empty() && native_kind(vr) == Some(*k),
+        MPrim::F32(l) if vr == VR::FL => !l.is_empty() && l.iter().all(|b| !f32::from_bits(*b).is_nan() || *b == 0x7fc0_0000),
+        MPrim::F64(l) if vr == VR::FD => !l.is_empty() && l.iter().all(|b| !f64::from_bits(*b).is_nan() || *b == 0x7ff8_0000_0000_0000),
+        _ => false,
+    }
+}
+pub fn canon_ds(ds: &MDs) -> bool {
+    ds.0.iter().all(|(_, vr, v)| match v {
+        MValue::Prim(p) => canon_prim(*vr, p),
+        MValue::Seq(items) => items.iter().all(canon_ds),
+        MValue::Pix => true,
+    })
+}
+
 // ---------------------------------------------------------------- direct oracle of C23: equal up to the documented normalisations
 fn feq(a: f64, b: f64) -> bool { (a.is_nan() && b.is_nan()) || a.to_bits() == b.to_bits() }
 fn prim_empty(vr: VR, p: &PrimitiveValue) -> bool { p.multiplicity() == 0 || (is_bin_vr(vr) && p.to_bytes().is_empty()) }
@@ -229,6 +253,7 @@ fn case_rt(prop: Prop, ds: &MDs, bucket: &str) -> Case {
     let obj = ds.real();
     let wf = wf_ds(ds);
     let conf = conf_ds(ds);
+    let canon = canon_ds(ds);
     let out = catch(|| dicom_json::to_value(&obj));
     let mut ext = Ext::new();
     ext.add_ds(ds);
@@ -252,6 +277,8 @@ fn case_rt(prop: Prop, ds: &MDs, bucket: &str) -> Case {
             (None, _) => Oracle::Fails { class: "SerPanic".into(), detail: "to_value panicked on a well-formed data set".into() },
             (Some(Err(e)), _) => Oracle::Fails { class: "SerError".into(), detail: e.to_string() },
             (_, Some(Some(Err(e)))) => Oracle::Fails { class: "RoundTrip:DeError".into(), detail: e.to_string() },
+            (_, Some(Some(Ok(o)))) if canon && MDs::of_real(o).coq() != ds.coq() =>
+                Oracle::Fails { class: "RoundTrip:CanonicalNotIdentical".into(), detail: format!("{} became {}", ds.desc(), MDs::of_real(o).desc()) },
             (_, Some(Some(Ok(o)))) => match same_ds(&obj, o) {
                 Ok(()) => {
                     // and the same through JSON text (to_string / from_str)
@@ -277,11 +304,11 @@ fn case_rt(prop: Prop, ds: &MDs, bucket: &str) -> Case {
             }
         },
     };
-    let coq = format!("(CaseRT {} {} {} {} {} {} {})", ext.coq(), ds.coq(), c_out, c_back, c_bool(verdict.is_ok()), c_bool(wf), c_bool(conf));
+    let coq = format!("(CaseRT {} {} {} {} {} {} {} {})", ext.coq(), ds.coq(), c_out, c_back, c_bool(verdict.is_ok()), c_bool(wf), c_bool(conf), c_bool(canon));
     let nontrivial = !ds.0.is_empty();
     Case {
         coq,
-        desc: json!({"bucket": bucket, "dataset": ds.desc(), "to_value": d_out, "from_value": d_back, "annexf": verdict.err(), "wf": wf, "conf": conf}),
+        desc: json!({"bucket": bucket, "dataset": ds.desc(), "to_value": d_out, "from_value": d_back, "annexf": verdict.err(), "wf": wf, "conf": conf, "canonical": canon}),
         key: if nontrivial { format!("rt|{}", ds.coq()) } else { String::new() },
         oracle,
     }
@@ -349,6 +376,15 @@ fn corpus() -> (Vec<(MDs, &'static str)>, Vec<(J, &'static str)>) {
         ds.push((one(t, *vr, v), "corpus:every-vr"));
         ds.push((one(t, *vr, MValue::Prim(MPrim::Empty)), "corpus:every-vr-empty"));
     }
+    // many arbitrary binary64 values: the JSON text round trip must be exact (serde_json float_roundtrip)
+    {
+        let mut g = Rng::new(0xf10a7);
+        let vals: Vec<u64> = (0..48).map(|_| loop { let b = g.next(); if f64::from_bits(b).is_finite() { break b } }).chain([1.0466221946810431e-157f64.to_bits()]).collect();
+        ds.push((one(0x0018_0050, VR::FD, MValue::Prim(MPrim::F64(vals.clone()))), "corpus:binary64-text"));
+        ds.push((one(0x0018_0050, VR::DS, MValue::Prim(MPrim::F64(vals[..12].to_vec()))), "corpus:binary64-text"));
+        let mut g = Rng::new(0xf10a8);
+        ds.push((one(0x0018_0051, VR::FL, MValue::Prim(MPrim::F32((0..48).map(|_| loop { let b = g.next() as u32; if f32::from_bits(b).is_finite() { break b } }).collect()))), "corpus:binary32-text"));
+    }
     // 64-bit integers under every integer kind and VR
     for vr in [VR::SV, VR::UV, VR::UL, VR::DS, VR::IS, VR::LO] { for k in [IK::I64, IK::U64, IK::U32] { ds.push((one(0x0009_0001, vr, MValue::Prim(MPrim::Int(k, int_pool(k)))), "corpus:wide-integers")); } }
     (ds, docs)
@@ -368,7 +404,8 @@ pub fn cases(ctx: &Ctx, prop: Prop) -> Vec<Case> {
         i += 1;
         match i % 10 {
             // well-formed data sets: the round trip and conformance theorems apply
-            0..=2 => { let d = rand_ds(&mut r, 2, true, 5); out.push(case_rt(prop, &d, if d.0.iter().any(|e| matches!(e.2, MValue::Seq(_))) { "rt:wf-nested" } else { "rt:wf-flat" })); }
+            0 => { let d = rand_ds_canon(&mut r, 2, 5); out.push(case_rt(prop, &d, "rt:canonical")); }
+            1 | 2 => { let d = rand_ds(&mut r, 2, true, 5); out.push(case_rt(prop, &d, if d.0.iter().any(|e| matches!(e.2, MValue::Seq(_))) { "rt:wf-nested" } else { "rt:wf-flat" })); }
             // any VR with any kind of value (serialiser panics, type errors on the way back)
             3 => { let d = rand_ds(&mut r, 2, false, 4); out.push(case_rt(prop, &d, "rt:any-kind")); }
             // mutated serialiser output
